@@ -329,15 +329,12 @@ def signature(case, kind, exp):
 
 
 # ------------------------------------------------------------------- plan ---
-def pairwise_rows(lists):
-    """Quick-tier subprocess rows: a covering array of strength 2 over (list, schema, outfmt,
-    validator, base-uri) for the lists of length <= 2 and the stdin cases, plus every list of
-    length 3 once, on a schema that loads, with the other factors rotated."""
-    short = [i for i, l in enumerate(lists) if isinstance(l, dict) or len(l) <= 2]
-    long = [i for i, l in enumerate(lists) if not isinstance(l, dict) and len(l) == 3]
-    dims = [short, range(len(SCHEMA_STATES)), range(len(OUTFMT)), range(len(VALIDATORS)), range(len(BASES))]
+def covering_rows(idx):
+    """Covering array of strength 2 over (list in idx, schema, outfmt, validator, base-uri):
+    every (list, schema) pair with the other factors rotated, then completed greedily and verified."""
+    dims = [idx, range(len(SCHEMA_STATES)), range(len(OUTFMT)), range(len(VALIDATORS)), range(len(BASES))]
     rows = []
-    for n, i in enumerate(short):
+    for n, i in enumerate(idx):
         for j in range(len(SCHEMA_STATES)):
             rows.append((i, j, (n + j) % 3, (n // 3 + j) % 4, (n // 12 + j // 3 + j) % 2))
     covered = set()
@@ -354,13 +351,26 @@ def pairwise_rows(lists):
                 for y in dims[b]:
                     if (a, x, b, y) not in covered:
                         filled += 1
-                        r = [short[0], 0, 0, 0, 0]
+                        r = [idx[0], 0, 0, 0, 0]
                         r[a], r[b] = x, y
                         rows.append(tuple(r))
                         covered.update(pairs(tuple(r)))
-    loads = [SCHEMA_STATES.index(x) for x in ("valid", "valid-ref", "d4only")]
-    for n, i in enumerate(long):
-        rows.append((i, loads[n % 3], (n // 3) % 3, (n // 9 + n) % 4, (n // 2) % 2))
+    return rows, filled
+
+
+def subprocess_rows(lists, thorough):
+    short = [i for i, l in enumerate(lists) if isinstance(l, dict) or len(l) <= 2]
+    long = [i for i, l in enumerate(lists) if not isinstance(l, dict) and len(l) == 3]
+    if thorough:
+        rows = [(i, s, o, v, b) for i in short for s in range(len(SCHEMA_STATES))
+                for o in range(len(OUTFMT)) for v in range(len(VALIDATORS)) for b in range(len(BASES))]
+        more, filled = covering_rows(long)
+        rows += more
+    else:
+        rows, filled = covering_rows(short)
+        loads = [SCHEMA_STATES.index(x) for x in ("valid", "valid-ref", "d4only")]
+        for n, i in enumerate(long):
+            rows.append((i, loads[n % 3], (n // 3) % 3, (n // 9 + n) % 4, (n // 2) % 2))
     return sorted(set(rows)), filled
 
 
@@ -379,14 +389,8 @@ def plan(ctx):
             for v in range(len(VALIDATORS)):
                 for b in range(len(BASES)):
                     units.append(("inproc", maxlen, s, o, v, b))
-    if ctx.thorough:
-        rows = [(i, s, o, v, b) for i in range(len(lists3)) for s in range(len(SCHEMA_STATES))
-                for o in range(len(OUTFMT)) for v in range(len(VALIDATORS)) for b in range(len(BASES))]
-        filled = 0
-        chunk = 96
-    else:
-        rows, filled = pairwise_rows(lists3)
-        chunk = 16
+    rows, filled = subprocess_rows(lists3, ctx.thorough)
+    chunk = 48 if ctx.thorough else 16
     # interleave so that every chunk mixes cheap and expensive rows
     nchunks = (len(rows) + chunk - 1) // chunk
     for c in range(nchunks):
@@ -403,10 +407,12 @@ def plan(ctx):
                  "Configurations are distinct by construction (a product of factor values, each taken once); "
                  "the two execution modes are counted separately. Non-trivial = the schema is accepted, so the "
                  "instance fold actually runs (at least one transition)" % (
-                     maxlen, "the full product up to list length 3" if ctx.thorough else
-                     "a strength-2 covering array over the five factors for the lists of length <= 2 and stdin (every "
-                     "(list, schema) pair, other factors rotated; coverage of all factor-value pairs verified, %d rows "
-                     "added to complete it) plus every list of length 3 once on a schema that loads" % filled)),
+                     maxlen, ("the full product for the lists of length <= 2 and stdin, plus a strength-2 covering array over "
+                               "the five factors for the lists of length 3 (%d rows added to complete it)" % filled)
+                     if ctx.thorough else
+                     ("a strength-2 covering array over the five factors for the lists of length <= 2 and stdin (every "
+                      "(list, schema) pair, other factors rotated; coverage of all factor-value pairs verified, %d rows "
+                      "added to complete it) plus every list of length 3 once on a schema that loads" % filled))),
         "bounds": {"tier": ctx.tier, "max_list_length": maxlen, "instance_lists": len(lists),
                    "schema_states": len(SCHEMA_STATES), "output_modes": len(OUTFMT),
                    "validator_options": len(VALIDATORS), "base_uri_options": len(BASES),
